@@ -18,4 +18,5 @@ def lifecycle(I):
     tr = Tracker(sc)
     c07_checks(sc, tr)
     c08_checks(sc, tr)
+    c02_checks(sc, tr)
     sc.run()
